@@ -4,8 +4,10 @@ PROP = dict(
     level_text='Every (key type x verifying role x callback behaviour x credential defect) combination is run under TLS 1.1, 1.2, 1.3 and DTLS 1.2 and the verifier outcome is compared with a model (complete iff no defect, or the callback accepted that failure) and across versions; callback alert value and anon status are checked. The matrix is small, so the quick tier covers it many times over.',
     level_note='Credential defects are chain-validation failures (expired, not yet valid, wrong name, unknown CA, corrupted signature, intermediate without CA flag / keyCertSign, depth exceeded) presented by the in-process OpenSSL endpoint of C10 (which sends any chain it is given); proof-of-possession defects (wrong-key CertificateVerify / ServerKeyExchange signatures) need the scripted peer and are checked by the c04_pop targets when present.',
     technique='property-based testing over a finite configuration matrix with a reference authentication model and a cross-version metamorphic relation',
-    rule='case = (RSA|EC, client or server verifies, callback in {none, strict, permissive, anon, picky}, defect in 10 classes) x 4 protocol versions; non-trivial = a defect is present; distinct by the tuple',
+    rule='auth_gate: case = (RSA|EC, client or server verifies, callback in {none, strict, permissive, anon, picky}, defect in 10 classes) x 4 protocol versions; non-trivial = a defect is present; distinct by the tuple. resume_history: case = (options of a first client-authenticated connection; changed or unchanged options + defective identity of a second connection presenting the first one\'s session id/ticket); non-trivial = second connection presents the handle with a defective identity',
     assumptions=['pinned clock 2026-09-21 for validity checks'],
     targets=[dict(name='c04_auth_gate', src=['props/C04/auth_gate.cc', 'harness/wraps.c', 'harness/c10_ossl_peer.cc'], libs=['-lssl', '-lcrypto'], wraps=WRAPS, env={'VERIF_DIR': '/verif'},
-                  quick=dict(cases=640, secs=90), thorough=dict(cases=20000, secs=900))],
+                  quick=dict(cases=640, secs=90), thorough=dict(cases=20000, secs=900)),
+             dict(name='c04_resume_history', src=['props/C04/resume_history.cc', 'harness/wraps.c'], wraps=WRAPS, env={'VERIF_DIR': '/verif'},
+                  quick=dict(cases=1500, secs=60), thorough=dict(cases=60000, secs=900))],
 )
